@@ -74,6 +74,7 @@ type loopInfo struct {
 	mods   map[string]bool // nil = all
 	parent *loopInfo
 	spec   *LoopSpec
+	stale  map[string]bool // invariants that no longer evaluate against the code (names gone)
 	headHp *Heap
 	headLocals map[*ssa.Alloc]string
 }
@@ -132,6 +133,9 @@ type FuncGen struct {
 	localAllocs map[*ssa.Alloc]bool
 	abstractions [][2]string
 	visitedMode int
+	staleInvs []string
+	mapRefKind map[string]string
+	ownFootprint []string
 	disabled map[int]bool // assumptions of failed side checks, dropped in the second pass
 	inline map[ssa.Value]bool
 	posts    map[string]*postParts
@@ -899,6 +903,15 @@ func (g *FuncGen) Generate() (err error) {
 	if err := g.bindLets(env); err != nil {
 		return err
 	}
+	if g.c != nil {
+		for _, fe := range g.c.Footprint {
+			v, err := g.eval(fe, env)
+			if err != nil {
+				return fmt.Errorf("%s: footprint %s: %v", g.fname, fe, err)
+			}
+			g.ownFootprint = append(g.ownFootprint, v.Term)
+		}
+	}
 
 	g.edges = map[[2]int]edgeInfo{}
 	order := g.rpo()
@@ -1191,7 +1204,12 @@ func (g *FuncGen) loopInvariants(li *loopInfo) []Clause {
 		}
 	}
 	if li.spec != nil {
-		out = append(out, li.spec.Invariants...)
+		for _, cl := range li.spec.Invariants {
+			if li.stale[cl.Src] {
+				continue
+			}
+			out = append(out, cl)
+		}
 	}
 	return out
 }
@@ -1217,6 +1235,19 @@ func (g *FuncGen) enterLoop(b *ssa.BasicBlock) (*State, error) {
 	}
 	if len(conds) == 0 {
 		return nil, nil
+	}
+	// an invariant that mentions names the code no longer has is dropped (and
+	// reported): the loop structure changed under the contract
+	if li.spec != nil && len(conds) > 0 {
+		li.stale = map[string]bool{}
+		g.visitedMode = 0
+		probe := g.loopEnv(li, heaps[0], locs[0], func(phi *ssa.Phi) string { return g.val(phi.Edges[predIdx[0]]) })
+		for _, cl := range li.spec.Invariants {
+			if _, err := g.evalBool(cl.Expr, probe); err != nil {
+				li.stale[cl.Src] = true
+				g.staleInvs = append(g.staleInvs, fmt.Sprintf("loop %d invariant %s: %v", li.ord, cl.Src, err))
+			}
+		}
 	}
 	invs := g.loopInvariants(li)
 	// inv.init on every entry edge
